@@ -41,7 +41,12 @@ RULE = (
     "'identity' pairs (target = another layout / class / permutation of the same located elements); RegridLinear "
     "(unstructured or masked source only, 2-3 D, never the structured RegularGridInterpolator path) with random "
     "affine fields (dyadic coefficients) and random fields, with and without fill_with_nearest; every case through "
-    "bare slots or a Composition; a share of the masked cases is run twice with different values under the source "
+    "bare slots or a Composition; in 40 % of the cases with a uniform/rectilinear side the grid OBJECT has a history: "
+    "built with the other data location, used (data_points/data_shape/data_size read, or a complete judged "
+    "preliminary regridding as source resp. target), then turned into the case's grid by copy()/copy(deep)+"
+    "data_location setter or by the setter in place, or the same object serves two successive adapters; "
+    "grid.data_points of the objects actually used is cross-checked against the computed locations after the whole "
+    "sequence; a share of the masked cases is run twice with different values under the source "
     "mask.  non-trivial = data was delivered, >= 2 unmasked targets received >= 2 different source values, and a "
     "mask is present or a grid is unstructured or a layout flag differs from the default; distinct by canonical "
     "case hash"
@@ -415,7 +420,13 @@ def _gen_case(rng, kind):
             if rng.random() < 0.5:
                 k = rng.randrange(nt)
                 down[k] = not down[k]
-    return {"method": method, "fill": (rng.random() < 0.5) if method == "linear" else False,
+    reuse = None
+    sides = [sd for sd, g in (("src", src), ("tgt", tgt)) if g["cls"] in ("uniform", "rect")]
+    if sides and rng.random() < 0.4:
+        pick = rng.choice([[sd] for sd in sides] + [sides])
+        reuse = {"sides": pick, "mode": rng.choice(["copy", "copy", "inplace", "inplace", "deepcopy", "same"]),
+                 "touch": rng.choice(["read", "regrid"])}
+    return {"method": method, "fill": (rng.random() < 0.5) if method == "linear" else False, "reuse": reuse,
             "via": "comp" if rng.random() < 0.3 else "bare", "tgrid": rng.choice(["adapter", "adapter", "info", "both"]),
             "sgrid": rng.choice(["info", "info", "both"]),
             "src": src, "tgt": tgt, "smask": smask, "src_ma": src_ma, "svals": [fr(v) for v in vals], "am": am, "down": down,
@@ -433,7 +444,7 @@ def _case(src, tgt, **kw):
     ns = int(np.prod(data_shape(src)))
     c = {"method": "nearest", "fill": False, "via": "bare", "tgrid": "adapter", "sgrid": "info", "src": src, "tgt": tgt,
          "smask": "flex", "src_ma": False, "svals": [fr(i + 1) for i in range(ns)], "am": None, "down": "flex",
-         "affine": None, "twin": False, "kind": "corpus"}
+         "affine": None, "twin": False, "kind": "corpus", "reuse": None}
     c.update(kw)
     return c
 
@@ -460,6 +471,19 @@ CORPUS = [
     _case(_u([3, 2]), _u([2, 2]), am="flex", down="none"),
     _case(_u([3, 2]), _u([2, 2]), am=None, down=None),
     _case(_u([3, 2]), _u([2, 2]), src_ma=True),
+    # grid objects with a history (seeded/C16_d): a mesh delivers its cell field, then the node field on
+    # mesh.copy() with data_location = POINTS (and the in-place / reverse / target-side variants)
+    _case(_u([6, 5], spacing=[fr(2), fr(Fraction(3, 2))], origin=[fr(1), fr(-2)]),
+          _u([8, 7], spacing=[fr(Fraction(5, 4)), fr(Fraction(7, 8))], origin=[fr(Fraction(1, 2)), fr(Fraction(-9, 4))]),
+          via="comp", tgrid="info", reuse={"sides": ["src"], "mode": "copy", "touch": "regrid"}),
+    _case(_u([6, 5], spacing=[fr(2), fr(Fraction(3, 2))], origin=[fr(1), fr(-2)]),
+          _u([8, 7], spacing=[fr(Fraction(5, 4)), fr(Fraction(7, 8))], origin=[fr(Fraction(1, 2)), fr(Fraction(-9, 4))]),
+          reuse={"sides": ["src"], "mode": "inplace", "touch": "read"}),
+    _case(_u([4, 3], loc="CELLS", order="C", rev=True), _u([3, 3], spacing=[fr(Fraction(3, 2)), fr(1)], loc="CELLS"),
+          reuse={"sides": ["src", "tgt"], "mode": "copy", "touch": "read"}),
+    _case(_u([4, 3]), _u([3, 4], spacing=[fr(Fraction(3, 2)), fr(Fraction(3, 4))], loc="CELLS"),
+          reuse={"sides": ["tgt"], "mode": "inplace", "touch": "regrid"}),
+    _case(_u([4, 3]), _u([3, 3]), reuse={"sides": ["src"], "mode": "same", "touch": "regrid"}, twin=False),
     # 1-D and 3-D
     _case(_u([6], inc=[False]), _u([4], spacing=[fr(Fraction(3, 2))], loc="CELLS")),
     _case(_u([3, 2, 2], order="C", rev=True, inc=[True, False, True]), _u([2, 2, 3], loc="CELLS", order="F")),
@@ -475,7 +499,7 @@ CORPUS = [
 
 
 def generate(rng, tier):
-    n = 1500 if tier == "quick" else 40000
+    n = 1000 if tier == "quick" else 40000
     cases = list(CORPUS)
     kinds = ["nearest"] * 4 + ["identity"] * 2 + ["linaff"] * 3 + ["linrand"]
     for i in range(n):
@@ -525,8 +549,53 @@ def _make_adapter(case, sg, tg):
     return fm.adapters.RegridLinear(fill_with_nearest=case["fill"], **kw)
 
 
-def _run_link(case, vals):
-    sg, tg = build_grid(case["src"]), build_grid(case["tgt"])
+def _flip(loc):
+    return "POINTS" if loc == "CELLS" else "CELLS"
+
+
+def _obtain_grids(case):
+    """Grid objects of the case.  With case["reuse"] the objects are NOT fresh: a uniform / rectilinear grid is first
+    built (with the other data location for the modes copy / deepcopy / inplace, with the same one for mode same),
+    used (data_points / data_shape / data_size read, or a complete preliminary nearest-neighbour regridding with it
+    as source resp. target, which is judged like any other), and only then turned into the grid of the case by
+    `copy()` + `data_location = ...`, by the setter on the object itself, or not at all (same object in two
+    successive adapters).  Returns (source grid, target grid, [preliminary (case, result)])."""
+    reuse = case.get("reuse")
+    pre = []
+    out = []
+    d = grid_dim(case["src"])
+    for side in ("src", "tgt"):
+        desc = case[side]
+        if not reuse or side not in reuse["sides"] or desc["cls"] not in ("uniform", "rect"):
+            out.append(build_grid(desc))
+            continue
+        mode = reuse["mode"]
+        first = dict(desc) if mode == "same" else dict(desc, loc=_flip(desc["loc"]))
+        g0 = build_grid(first)
+        if reuse["touch"] == "read":
+            _ = (g0.data_points, g0.data_shape, g0.data_size)
+        else:
+            other = _u([3] * d, spacing=[fr(Fraction(3, 2))] * d, origin=[fr(Fraction(-1, 4))] * d)
+            pc = _case(first, other) if side == "src" else _case(other, first)
+            pg = (g0, build_grid(other)) if side == "src" else (build_grid(other), g0)
+            pre.append([pc, {"res": _run_link(pc, [fq(v) for v in pc["svals"]], pg)[0]}])
+        if mode == "copy":
+            g = g0.copy()
+            g.data_location = desc["loc"]
+        elif mode == "deepcopy":
+            g = g0.copy(deep=True)
+            g.data_location = desc["loc"]
+        elif mode == "inplace":
+            g0.data_location = desc["loc"]
+            g = g0
+        else:
+            g = g0
+        out.append(g)
+    return out[0], out[1], pre
+
+
+def _run_link(case, vals, grids=None):
+    sg, tg = grids if grids is not None else (build_grid(case["src"]), build_grid(case["tgt"]))
     sshape, tshape = tuple(data_shape(case["src"])), tuple(data_shape(case["tgt"]))
     tpos = flat_pos(case["tgt"])
     smask = _py_mask(case["smask"], sshape)
@@ -600,14 +669,17 @@ def run_impl(case):
 
     fl = _flat(case)
     vals = [fq(v) for v in case["svals"]]
-    res, _ = _run_link(case, vals)
+    sg, tg, pre = _obtain_grids(case)
+    res, _ = _run_link(case, vals, (sg, tg))
     obs = {"res": res}
+    if pre:
+        obs["pre"] = pre
     if case.get("twin") and isinstance(case["smask"], list):
         vals2 = [(-v - 7 if m else v) for v, m in zip(vals, case["smask"])]
-        obs["twin"] = _run_link(case, vals2)[0]
-    # the premise "flattened data pairs with data_points": implementation's data_points against own locations
-    obs["points_agree"] = [_grid_points_agree(build_grid(case["src"]), case["src"], fl["spts"]),
-                           _grid_points_agree(build_grid(case["tgt"]), case["tgt"], fl["tpts"])]
+        obs["twin"] = _run_link(case, vals2, (sg, tg))[0]       # the same grid objects in a second adapter
+    # the premise "flattened data pairs with data_points": data_points of the grid objects that were actually used
+    # (after all of the above), against the harness's own locations
+    obs["points_agree"] = [_grid_points_agree(sg, case["src"], fl["spts"]), _grid_points_agree(tg, case["tgt"], fl["tpts"])]
     # ---- oracle runs (scipy, independent of finam) on the harness's own coordinates
     keep = [not m for m in fl["smask"]] if fl["smask"] is not None else [True] * len(fl["spts"])
     ic = [p for p, k in zip(fl["spts"], keep) if k]
@@ -727,6 +799,10 @@ def _masks_consistent(case):
 
 
 def monitor(case, obs):
+    for pc, po in obs.get("pre", []):
+        f = _monitor(pc, po)
+        if f:
+            return "preliminary regridding with the grid object that is reused afterwards: " + f
     f = _monitor(case, obs)
     if f is None and not all(obs.get("points_agree", [True, True])):
         return "grid.data_points differs from the locations of the data elements (order/layout pairing premise)"
@@ -841,6 +917,9 @@ def distribution(cases, obss):
         "method": dict(Counter(c["method"] + ("+fill" if c["fill"] else "") for c in cases)),
         "kind": dict(Counter(c["kind"] for c in cases)),
         "via": dict(Counter(c["via"] for c in cases)),
+        "grid_object_reuse": dict(Counter(("fresh" if not c.get("reuse") else
+                                           c["reuse"]["mode"] + "/" + c["reuse"]["touch"] + "/" + "+".join(c["reuse"]["sides"]))
+                                          for c in cases)),
         "source_grid": dict(Counter(gk(c["src"]) for c in cases)),
         "target_grid": dict(Counter(gk(c["tgt"]) for c in cases)),
         "source_mask": dict(Counter("bits" if isinstance(c["smask"], list) else c["smask"] for c in cases)),
@@ -876,6 +955,13 @@ def shrink_candidates(case):
         c = dict(case)
         c.update(kw)
         return c
+    if case.get("reuse"):
+        yield upd(reuse=None)
+        if len(case["reuse"]["sides"]) > 1:
+            for sd in case["reuse"]["sides"]:
+                yield upd(reuse=dict(case["reuse"], sides=[sd]))
+        if case["reuse"]["touch"] != "read":
+            yield upd(reuse=dict(case["reuse"], touch="read"))
     if case["via"] != "bare":
         yield upd(via="bare")
     if case.get("twin"):
